@@ -6,7 +6,7 @@ the undo call, the inner/outer natural loops, the schedule variable (kt), score_
 the step multiplier.
 """
 from .cfg import CFG
-from .mirutil import Defs, Tracer, call_matches, field_path
+from .mirutil import Defs, Tracer, call_matches, callee_name, field_path
 
 
 class AnchorLost(Exception):
@@ -139,18 +139,30 @@ class OptimiserAnchors:
         self.tr = Tracer(b, self.defs)
         # State::score calls
         self.score_calls = [(bi, t) for bi, t in b.calls() if is_trait_call(t, 'State', 'score')]
-        # decision: a call receiving the result of a State::score call
+        # decision: a call receiving the result of a State::score call — as an argument, or as a field of a struct literal
+        # argument (`accept(Proposal { new: state.score(), old, kt }, rng)`) — whose result says accepted-with-score or rejected:
+        # Option<f64>, or a two-variant enum with one payload variant (`enum Verdict { Accept(f64), Reject }`)
         dec = []
         for bi, t in b.calls():
             for ai, a in enumerate(t['args']):
                 o = self.tr.origin(a)
                 if o['o'] == 'call' and not o['p'] and is_trait_call(o['term'], 'State', 'score'):
                     dec.append((bi, t, ai, o['bb']))
-        dec = [d for d in dec if d[1]['dest']['ty'].startswith('std::option::Option<f64>')]
+                elif o['o'] == 'rvalue' and not o['p'] and o['rv'].get('r') == 'aggr' and o['rv'].get('agg') == 'adt':
+                    for op in o['rv']['ops']:
+                        if 'l' not in op:
+                            continue
+                        o2 = self.tr.origin(op)
+                        if o2['o'] == 'call' and not o2['p'] and is_trait_call(o2['term'], 'State', 'score'):
+                            dec.append((bi, t, ai, o2['bb']))
+        dec = [d for d in dec if self._outcome_type(d[1]['dest']['ty']) is not None and facts.body_of_fnconst(d[1]['func']) is not None
+               or d[1]['dest']['ty'].startswith('std::option::Option<f64>')]
         if len(dec) != 1:
-            raise AnchorLost('expected exactly one decision call (Option<f64> result, fed by State::score) in %s, '
+            raise AnchorLost('expected exactly one decision call (accepted-score / rejected result, fed by State::score) in %s, '
                              'found %d' % (b.path, len(dec)))
         self.decision_bb, self.decision, self.decision_new_arg, self.proposal_score_bb = dec[0]
+        # semantic outcome of each variant of the result type: 1 accepted (carries the score), 0 rejected
+        self.outcome = self._outcome_type(self.decision['dest']['ty'])
         # tests of the decision's result: discriminant switches and is_none()/is_some() on (copies of) the value
         self.decision_tests = [bi for bi in range(len(b.blocks)) if self.decision_test(bi) is not None]
         self.decision_switch_bb = self.decision_tests[0] if self.decision_tests else None
@@ -171,6 +183,31 @@ class OptimiserAnchors:
                 nm = self.decision_body.local_name(i)
                 if nm:
                     self.dec_args[nm] = self.decision['args'][i - 1]
+                # a struct literal argument contributes its fields as roles (Proposal { new, old, kt })
+                ao = self.tr.origin(self.decision['args'][i - 1])
+                if ao['o'] == 'rvalue' and not ao['p'] and ao['rv'].get('r') == 'aggr' and ao['rv'].get('agg') == 'adt' and \
+                        ao['rv'].get('fields'):
+                    for fn_, op in zip(ao['rv']['fields'], ao['rv']['ops']):
+                        self.dec_args.setdefault(fn_, op)
+
+    def _outcome_type(self, ty):
+        """{'name': type, 'sem': {variant index: 1 accepted / 0 rejected}, 'accept': (variant name, index)} for a result type that
+        says accepted-with-score or rejected; None for any other type."""
+        ty = self.f.norm(ty or '')
+        if ty.startswith('std::option::Option<f64>'):
+            return {'name': 'std::option::Option', 'sem': {0: 0, 1: 1}, 'accept': ('Some', 1), 'reject': ('None', 0)}
+        a = self.f.adts.get(ty.split('<')[0])
+        if not a or len(a.get('variants') or []) != 2:
+            return None
+        per = {v: 0 for v in a['variants']}
+        for fl in a.get('fields') or []:
+            per[fl['variant']] = per.get(fl['variant'], 0) + 1
+        withp = [v for v in a['variants'] if per.get(v) == 1]
+        without = [v for v in a['variants'] if per.get(v) == 0]
+        if len(withp) != 1 or len(without) != 1:
+            return None
+        ai, ri = a['variants'].index(withp[0]), a['variants'].index(without[0])
+        return {'name': ty.split('<')[0], 'sem': {ai: 1, ri: 0}, 'accept': (withp[0], ai), 'reject': (without[0], ri)}
 
     # -- the decision's outcome along paths ---------------------------------------------------------------------
     def _is_decision_value(self, pl_or_op, allow_ref=True):
@@ -190,14 +227,42 @@ class OptimiserAnchors:
             if self._is_decision_value(dict(d['rv']['place'], k='copy'), allow_ref=False) or \
                     self._is_decision_value({'k': 'copy', 'l': d['rv']['place']['l'], 'p': [e for e in d['rv']['place']['p'] if e != 'deref']}):
                 m = {}
+                sem = self.outcome['sem']
                 for val, tgt in t['arms']:
-                    if val in ('0', '1'):
-                        m.setdefault(tgt, set()).add(int(val))
-                vals = {v for v, _ in t['arms']}
-                rest = {0, 1} - {int(v) for v in vals if v in ('0', '1')}
+                    if val.lstrip('-').isdigit() and int(val) in sem:
+                        m.setdefault(tgt, set()).add(sem[int(val)])
+                vals = {int(v) for v, _ in t['arms'] if v.lstrip('-').isdigit()}
+                rest = {sem[v] for v in sem if v not in vals}
                 if rest:
                     m.setdefault(t['otherwise'], set()).update(rest)
                 return m
+        if d['o'] == 'call' and not d['p'] and call_matches(d['term'], 'PartialEq::eq', 'PartialEq::ne', 'PartialEq>::eq', 'PartialEq>::ne') \
+                and len(d['term']['args']) == 2:
+            # `verdict == Verdict::Reject` (derived PartialEq): comparing with the payload-free variant decides the variant
+            a0, a1 = d['term']['args']
+            other = a1 if self._is_decision_value(a0) else (a0 if self._is_decision_value(a1) else None)
+            if other is not None:
+                oo = self.tr.origin(other)
+                cmp_vi = None
+                if oo['o'] == 'rvalue' and oo['rv'].get('r') == 'aggr' and oo['rv'].get('agg') == 'adt' and not oo['rv'].get('ops') \
+                        and [e for e in oo['p'] if e != 'ref'] == []:
+                    cmp_vi = oo['rv'].get('vi')
+                elif oo['o'] == 'const' and [e for e in oo.get('p', []) if e not in ('ref', 'deref')] == []:
+                    from .mirutil import const_variant
+                    cv = const_variant(self.f, oo['c'])
+                    if cv is not None and cv[0].split('<')[0] == self.outcome['name']:
+                        cmp_vi = cv[1]
+                if cmp_vi in self.outcome['sem'] and self.outcome['sem'][cmp_vi] == 0:
+                    is_v = self.outcome['sem'][cmp_vi]
+                    eq = (callee_name(d['term']) or '').endswith('eq')
+                    true_sem = is_v if eq else 1 - is_v
+                    m = {}
+                    zero = [tgt for val, tgt in t['arms'] if val == '0']
+                    if not zero:
+                        return None
+                    m.setdefault(zero[0], set()).add(1 - true_sem)
+                    m.setdefault(t['otherwise'], set()).add(true_sem)
+                    return m
         if d['o'] == 'call' and not d['p'] and call_matches(d['term'], 'Option::<T>::is_none', 'Option::<T>::is_some'):
             if d['term']['args'] and self._is_decision_value(d['term']['args'][0]):
                 none_is_true = call_matches(d['term'], 'Option::<T>::is_none')
